@@ -9,6 +9,7 @@ import SpecVerif.Model.Burg
 import SpecVerif.Model.Estimators
 import SpecVerif.Model.Eigen
 import SpecVerif.Model.Mtm
+import SpecVerif.Model.Window
 /-
   Line-protocol driver for the executable model (no Mathlib anywhere below this file, so it links as a
   `lean_exe`).
@@ -399,6 +400,45 @@ def handle (cmd : String) (hd : List String) (vs : List (List K)) : Reply K :=
 
 end Handlers
 
+/-- commands that exist only over the doubles (transcendental functions): windows, ENBW, LAR / inverse-sine -/
+def handleReal (cmd : String) (hd : List String) (vs : List (List CFloat)) : Option (Reply CFloat) :=
+  let N := natAt hd 1
+  let par := fun (i : Nat) => (nth (vs.getD 0 []) i).re
+  let out := fun (w : List Float) => some (Except.ok [w.map (fun v => (⟨v, 0.0⟩ : CFloat))])
+  match cmd with
+  | "window" =>
+    match strAt hd 0 with
+    | "window_rectangle" => out (wRectangle N)
+    | "window_hamming" => out (wHamming N)
+    | "window_hann" => out (wHann N)
+    | "window_bartlett" => out (wBartlett N)
+    | "window_blackman" => out (wBlackman N (par 0))
+    | "window_nuttall" => out (wNuttall N)
+    | "window_blackman_nuttall" => out (wBlackmanNuttall N)
+    | "window_blackman_harris" => out (wBlackmanHarris N)
+    | "window_flattop" => out (wFlattop N (par 0 == 1.0))
+    | "window_bartlett_hann" => out (wBartlettHann N)
+    | "window_cosine" => out (wCosine N)
+    | "window_lanczos" => out (wLanczos N)
+    | "window_gaussian" => out (wGaussian N (par 0))
+    | "window_bohman" => out (wBohman N)
+    | "window_riesz" => out (wRiesz N)
+    | "window_riemann" => out (wRiemann N)
+    | "window_poisson" => out (wPoisson N (par 0))
+    | "window_poisson_hanning" => out (wPoissonHanning N (par 0))
+    | "window_cauchy" => out (wCauchy N (par 0))
+    | "window_parzen" => out (wParzen N)
+    | "window_tukey" => out (wTukey N (par 0) (par 0 == 0.0) (par 0 == 1.0))
+    | "window_kaiser" => out (wKaiser N (par 0))
+    | "window_taylor" => out (wTaylor N (par 0).toUInt64.toNat (par 1))
+    | _ => some (.error "unsupported")
+  | "enbw" => out [enbw ((vs.getD 0 []).map (fun z => z.re))]
+  | "rc2lar" => out ((vs.getD 0 []).map (fun z => rc2lar z.re))
+  | "lar2rc" => out ((vs.getD 0 []).map (fun z => lar2rc z.re))
+  | "rc2is" => out ((vs.getD 0 []).map (fun z => rc2is z.re))
+  | "is2rc" => out ((vs.getD 0 []).map (fun z => is2rc z.re))
+  | _ => none
+
 def runAt (K : Type) [Add K] [Sub K] [Mul K] [Div K] [Neg K] [OfNat K 0] [OfNat K 1] [NatCast K]
     [Conj K] [ReOrd K] [Twid K] [LogRe K] [IsZero K] [Codec K] (cmd : String) (hd : List String)
     (secs : List (List String)) : String :=
@@ -413,7 +453,14 @@ def processLine (line : String) : String :=
   let toks := (line.splitOn " ").filter (· ≠ "")
   match splitSections toks with
   | (cmd :: mode :: hd) :: secs =>
-      if mode = "F" then runAt CFloat cmd hd secs
+      if mode = "F" then
+        match secs.mapM (parseVec (K := CFloat)) with
+        | none => "err parse"
+        | some vs =>
+          match handleReal cmd hd vs with
+          | some (.ok out) => "ok" ++ String.join (out.map (fun v => " | " ++ showVec v))
+          | some (.error e) => "err " ++ e
+          | none => runAt CFloat cmd hd secs
       else if mode = "Q" then runAt CRat cmd hd secs
       else "err mode"
   | _ => "err parse"
